@@ -64,7 +64,10 @@ def body(run):
     import wire as W
     clines, cblocks, cwall = W.run_codec(PID, drv, "paths", ["-mode", "blocks", "-depth", "3" if run.thorough() else "2", "-per", "2",
                                                            "-revs", "54460,51902", "-seed", str(run.seed)])
-    cv = W.validate(PID, clines, "tv-paths")
+    slines, sblocks, _ = W.run_codec(PID, drv, "paths-special", ["-mode", "special", "-revs", "54460"], nshard=8)
+    clines += slines
+    cblocks += sblocks
+    cv = W.validate(PID, clines, "tv-paths", big=True)
     V.log("  path equivalence: %d blocks of every column kind, %d accepted, %d rejected" % (cblocks, cv.accepted_lines, len(cv.rejections)))
     run.add_trace_rejections(cv, W.rejection_key, W.describe)
     run.coverage["path_equivalence_blocks"] = cblocks
